@@ -1270,6 +1270,14 @@ fn configs(tier: &str) -> Vec<Cfg> {
     if !quick {
         v.push(Cfg { family: "bulk".into(), policy: "default".into(), capacity: Some(2), shards: 4, depth: 5, ..base.clone() });
     }
+    // a shard count that is not a power of two as the user writes it (the builder normalises it; point operations,
+    // bulk operations and enumeration must agree on which shard a key lives in whatever the count)
+    v.push(Cfg { family: "bulk".into(), policy: "default".into(), capacity: None, shards: 3, depth: d(4, 5), ..base.clone() });
+    v.push(Cfg { family: "iter".into(), policy: "default".into(), capacity: None, shards: 3, depth: d(4, 5), ..base.clone() });
+    if !quick {
+        v.push(Cfg { family: "bulk".into(), policy: "default".into(), capacity: None, shards: 6, depth: 5, ..base.clone() });
+        v.push(Cfg { family: "read".into(), policy: "default".into(), capacity: None, shards: 3, depth: 5, ..base.clone() });
+    }
     v.push(Cfg { family: "entry".into(), policy: "default".into(), capacity: None, ttl_s: Some(10), depth: d(4, 5), ..base.clone() });
     v.push(Cfg { family: "entry".into(), policy: "lru".into(), capacity: Some(2), depth: d(4, 5), ..base.clone() });
     // the same spaces through the AsyncCache handle (handles/futures.rs, entry_api_async.rs, IterStream)
